@@ -365,16 +365,51 @@ def literals(ctx):
         ('navigation phrase verbatim / after a dot',
          (ap + '.accept_NavigationStepNode', "self.new('ACT_LNK', Mult=2, Rel_Phrase=node.phrase)"), (tg + '.accept_ACT_LNK', "self.buf('.', inst.Rel_Phrase)")),
         ('relationship number: int(rel_id[1:]) / "R" + str(Numb)',
-         (ap + '.r_rel', 'where(Numb=int(rel_id[1:]))'), (tg + '.accept_ACT_LNK', "self.buf('->', o_obj.Key_Lett, '[R', str(r_rel.Numb))")),
+         (ap + '.r_rel', 'where(Numb=int(rel_id[1:]))'), (tg + '.accept_ACT_LNK', "self.buf('->', one(inst).O_OBJ[678]().Key_Lett, '[R', str(one(inst).R_REL[681]().Numb))")),
         ('select cardinality lower-cased / verbatim',
          (ap + '.accept_SelectFromNode', "self.new('ACT_FIO', is_implicit=implicit, cardinality=node.cardinality.lower())"),
          (tg + '.accept_ACT_FIO', "self.buf('select ', inst.cardinality, ' ')")),
         ('variable name verbatim', (ap + '.v_int', 'self.v_var(node, Name=name)'), (tg + '.accept_V_VAR', 'self.buf(inst.Name)')),
         ('parameter name verbatim', (ap + '.accept_ParameterNode', "self.new('V_PAR', Name=node.name)"), (tg + '.accept_V_PAR', "self.buf(inst.Name, ': ')")),
     ]
+    from .. import emit as _emit
+
+    def pieces(args):
+        out_ = ''
+        for a_ in args:
+            for p_ in _emit.flatten(a_):
+                out_ += p_[1] if p_[0] == 'lit' else '\x00%s\x01' % src(p_[1])
+        return out_
+
+    def emitted(f_):
+        '''the text the generator writes, in source order: literal pieces verbatim, every other piece as a marked hole; any
+        statement that is not a buf() call is a separator.  How the pieces are spread over buf() calls / arguments / `+` / %
+        formats does not matter.'''
+        out_ = ''
+        for n_ in normal_order(f_):
+            if isinstance(n_, ast.Expr) and isinstance(n_.value, ast.Call) and call_attr(n_.value) == 'buf' and src(n_.value.func.value) == 'self' \
+                    and not n_.value.keywords and not any(isinstance(a_, ast.Starred) for a_ in n_.value.args):
+                out_ += pieces(n_.value.args)
+            elif isinstance(n_, (ast.If, ast.For, ast.While)):
+                out_ += '\x02'
+            elif isinstance(n_, ast.stmt):
+                out_ += '\x02'
+        return out_
+
+    def normal_order(f_):
+        def rec(lst_):
+            for st_ in lst_:
+                yield st_
+                for fld_ in ('body', 'orelse', 'finalbody'):
+                    sub_ = getattr(st_, fld_, None)
+                    if isinstance(sub_, list) and not isinstance(st_, (ast.FunctionDef, ast.ClassDef)):
+                        for x_ in rec(sub_):
+                            yield x_
+        return rec(f_.body)
     for what, (wq, wpat), (rq, rpat) in pairs:
-        wf, rf = repo.func(wq), repo.func(rq)
-        ok = pm.contains(wpat, wf) and pm.contains(rpat, rf)
+        wf, rf = repo.func(wq), repo.nfunc(rq)
+        want_ = pieces(ast.parse(rpat).body[0].value.args)
+        ok = pm.contains(wpat, wf) and want_ in emitted(rf)
         r.check(ok, what, rf, construct=rq, key='pair ' + what,
                 msg='encoding pair broken (%s): %s must contain `%s` and %s must contain `%s`' % (what, wq, wpat, rq, rpat))
     # elif clauses have no succession association: they are ordered by (line, column) of their statement
